@@ -229,7 +229,7 @@ def run(ctx):
     ctx.clause = ("in the ELF symbol readers: results of libelf accessors that fail on corrupted sections are checked "
                   "before use, reads through pointers into section data are preceded by a size test, divisions by "
                   "sh_entsize are guarded, and no assertion depends on file contents")
-    ctx.rules = ["R-ELFNULL", "R-ELFBOUND", "R-ELFBOUND/ENTSIZE", "R-INASSERT"]
+    ctx.rules = ["R-ELFNULL", "R-ELFBOUND", "R-ELFBOUND/ENTSIZE", "R-INASSERT", "R-ELFALLOC"]
     with open(os.path.join(TABLES, "c34_tables.json")) as fh:
         T = json.load(fh)
     P = ctx.program(None)
@@ -248,8 +248,79 @@ def run(ctx):
     ctx.floor("R-ELFBOUND", "reads through section-buffer pointers", k, 10)
     e = check_entsize(ctx, P, funcs)
     ctx.floor("R-ELFBOUND/ENTSIZE", "divisions by sh_entsize", e, 2)
+    na = check_elfalloc(ctx, P, funcs)
+    ctx.note("R-ELFALLOC: %d allocation(s) sized from a section header field in the ELF readers (0 expected today; the "
+             "seeded variant C34-containers-reserved-from-sh-size is the positive example of the thorough tier)" % na)
     acc = set(T["accessors"])
     ns, ni = inassert_rule.run(ctx, P, funcs, "C34", producers=lambda d: d["n"] in producers | set(T["assert_producers"]),
                                accessors=lambda d: d["n"] in acc, undecided=T["undecided"])
     ctx.floor("R-INASSERT", "assertion sites in the ELF readers", ns, 40)
     ctx.assume("that elfutils itself is memory safe on corrupted input; the DWARF part of the reader is not covered")
+
+
+
+ALLOC_METHODS = ("reserve", "resize", "assign")
+
+
+def check_elfalloc(ctx, P, funcs):
+    """R-ELFALLOC: a count computed from a section *header* field (sh_size, sh_info, e_shnum ...: attacker controlled,
+    not backed by data) must not size an allocation - vector::reserve / resize, new T[n], a sized container
+    constructor - unless a relational test against the size of data that was actually loaded (Elf_Data::d_size)
+    precedes it.  A corrupted sh_size of 2^64-256 makes reserve() throw std::length_error: the tool aborts."""
+    n = 0
+    HDR = ("sh_size", "sh_info", "sh_link", "e_shnum", "e_phnum", "st_size")
+    for f in sorted(funcs, key=lambda x: (x.file, x.l0)):
+        if f.dep or f.cfg() is None:
+            continue
+        tainted = set()
+        changed = True
+        while changed:
+            changed = False
+            for x in f.nodes():
+                tgt = rhs = None
+                if x["k"] == "VarDecl" and x.get("c") and x["c"][0] is not None:
+                    tgt, rhs = x.get("d"), x["c"][0]
+                elif x["k"] == "BinaryOperator" and x.get("op") == "=":
+                    l = strip_casts(x["c"][0])
+                    if l is not None and l["k"] == "DeclRefExpr":
+                        tgt, rhs = l.get("d"), x["c"][1]
+                if tgt is None or tgt in tainted:
+                    continue
+                t = f.unit.type((f.unit.decl(tgt) or {}).get("t")) or {}
+                if not t.get("arith"):
+                    continue
+                if any((y["k"] == "MemberExpr" and (f.decl(y) or {}).get("n") in HDR) or
+                       (y["k"] == "DeclRefExpr" and y.get("d") in tainted) for y in walk(rhs)):
+                    tainted.add(tgt)
+                    changed = True
+        if not tainted:
+            continue
+
+        def is_tainted(e):
+            return any((y["k"] == "DeclRefExpr" and y.get("d") in tainted) or
+                       (y["k"] == "MemberExpr" and (f.decl(y) or {}).get("n") in HDR) for y in walk(e))
+        sinks = []
+        for x in f.nodes():
+            if x["k"] == "CXXMemberCallExpr" and (f.decl(x) or {}).get("n") in ALLOC_METHODS and call_args(x) and \
+                    is_tainted(call_args(x)[0]):
+                sinks.append((x, "%s(%s)" % (f.decl(x)["n"], expr_str(f, call_args(x)[0]))))
+            if x["k"] == "CXXNewExpr" and x.get("c") and any(is_tainted(c) for c in x["c"] if c is not None):
+                sinks.append((x, "new[] sized by `%s`" % expr_str(f, x)[:40]))
+        for x, what in sinks:
+            n += 1
+            ctx.analysed(f)
+            guarded = False
+            for g in f.nodes():
+                if g["k"] != "IfStmt" or (g["l"], g["i"]) > (x["l"], x["i"]):
+                    continue
+                c = g["c"][0]
+                rel = [r for r in walk(c) if r["k"] == "BinaryOperator" and r.get("op") in ("<", ">", "<=", ">=")]
+                for r in rel:
+                    if is_tainted(r) and any(y["k"] == "MemberExpr" and (f.decl(y) or {}).get("n") == "d_size" for y in walk(r)):
+                        guarded = True
+            ctx.ob("R-ELFALLOC", "%s: %s is bounded by loaded data" % (short(f), what), guarded, f.loc(x),
+                   "a relational test against Elf_Data::d_size precedes the allocation" if guarded else
+                   "the size comes from a section header field that nothing has validated yet (no test against the d_size of "
+                   "loaded data before it): a corrupted header makes the allocation throw (std::length_error / bad_alloc) "
+                   "and the tool aborts instead of rejecting the file")
+    return n
